@@ -58,30 +58,20 @@ def sp_matmul(ndarray, affine, shape):
     if len(shape) < 1:
         return csr_matrix(ndarray)
     else:
-        if len(affine.shape) == 1:
-            affine = affine.reshape((affine.size, 1))
-            row, col = shape[-1], 1
-        elif len(ndarray.shape) == 1:
+        index = np.arange(affine.size).reshape(affine.shape)
+        if index.ndim == 1:
+            index = index.reshape((index.size, 1))
+        if len(ndarray.shape) == 1:
             ndarray = ndarray.reshape((1, ndarray.size))
-            row, col = 1, shape[-1]
-        else:
-            row, col = shape[-2], shape[-1]
 
-        inner = ndarray.shape[-1]
+        row, inner = ndarray.shape[-2:]
+        col = index.shape[-1]
+        batch = np.broadcast_shapes(ndarray.shape[:-2], index.shape[:-2])
+        full = batch + (row, col, inner)
 
-        affine_index = np.arange(affine.size).reshape(affine.shape)
-        dim = len(affine.shape)
-        axes = list(range(dim-2)) + [dim-1, dim-2]
-        index = np.transpose(np.tile(affine_index, row), axes=axes).flatten()
-        index_rep = size // (len(index)//inner)
-        if index_rep > 1:
-            index = np.tile(index, index_rep)
-
-        data = np.tile(ndarray, col).flatten()
-        data_rep = size // (len(data)//inner)
-        if data_rep > 1:
-            data = np.tile(data, data_rep)
-
+        data = np.broadcast_to(ndarray[..., :, None, :], full).flatten()
+        index = np.swapaxes(index, -1, -2)
+        index = np.broadcast_to(index[..., None, :, :], full).flatten()
         indptr = [inner*i for i in range(size+1)]
 
         return csr_matrix((data, index, indptr), shape=[size, affine.size])
@@ -94,30 +84,20 @@ def sp_lmatmul(ndarray, affine, shape):
     if len(shape) <= 0:
         return csr_matrix(ndarray)
     else:
-        if len(affine.shape) == 1:
-            affine = affine.reshape((1, affine.size))
-            row, col = 1, shape[-1]
-        elif len(ndarray.shape) == 1:
+        index = np.arange(affine.size).reshape(affine.shape)
+        if index.ndim == 1:
+            index = index.reshape((1, index.size))
+        if len(ndarray.shape) == 1:
             ndarray = ndarray.reshape((ndarray.size, 1))
-            row, col = shape[-1], 1
-        else:
-            row, col = shape[-2], shape[-1]
 
-        inner = affine.shape[-1]
+        row, inner = index.shape[-2:]
+        col = ndarray.shape[-1]
+        batch = np.broadcast_shapes(index.shape[:-2], ndarray.shape[:-2])
+        full = batch + (row, col, inner)
 
-        affine_index = np.arange(affine.size).reshape(affine.shape)
-        index = np.tile(affine_index, col).flatten()
-        index_rep = size // (len(index)//inner)
-        if index_rep > 1:
-            index = np.tile(index, index_rep)
-
-        dim = len(ndarray.shape)
-        axes = list(range(dim-2)) + [dim-1, dim-2]
-        data = np.transpose(np.tile(ndarray, row), axes=axes).flatten()
-        data_rep = size // (len(data)//inner)
-        if data_rep > 1:
-            data = np.tile(data, data_rep)
-
+        index = np.broadcast_to(index[..., :, None, :], full).flatten()
+        data = np.swapaxes(ndarray, -1, -2)
+        data = np.broadcast_to(data[..., None, :, :], full).flatten()
         indptr = [inner*i for i in range(size+1)]
 
         return csr_matrix((data, index, indptr), shape=[size, affine.size])
